@@ -394,6 +394,10 @@ class FnTranslatorX(rs.FnTranslator):
         self.structs.update(fspec.get("structs", {}))
         self.self_calls = dict(unit.get("self_calls", {}))
         self.self_calls.update(fspec.get("self_calls", {}))
+        # `self.f.method(closure)` of a library type as an abstract pure function of the field, the closure text pinned
+        self.abs_methods = dict(fspec.get("abs_methods", {}))
+        for key, f in self.abs_methods.items():
+            self.absfns["%meth:" + key] = dict(lean=f["lean"], args=[f["ty"]], ret=f["ty"])
         self.instances = dict(unit.get("ordered_instances", {}))      # generic `N: Ord` read at a fixed ordered Lean type
         self.mut_calls = dict(fspec.get("mut_calls", {}))
         for key, f in self.mut_calls.items():
@@ -621,6 +625,11 @@ class FnTranslatorX(rs.FnTranslator):
                         r = self._lhs_root(a)
                         if r not in decl and r not in out:
                             out.append(r)
+            if self.abs_method_key(n) is not None:
+                r = self._lhs_root(n.recv)
+                if r not in decl and r not in out:
+                    out.append(r)
+                return False
             if n.kind == "mcall":
                 if n.recv.kind == "var" and n.recv.name == "self" and n.name in self.self_calls:
                     for w in self.self_calls[n.name].get("writes", []):
@@ -1112,6 +1121,12 @@ class FnTranslatorX(rs.FnTranslator):
             return t, rt
         return txt, rt
 
+    def callee_abs(self, f):
+        """abstract parameters of a translated sibling: its own list (`abs=[…]` in the spec) or, by default, the caller's"""
+        if "abs" in f:
+            return "".join(" " + a for a in f["abs"])
+        return self.abs_args()
+
     def self_call(self, e, code, expected):
         """`self.method(args)` declared in the spec: a translated sibling function; the fields it writes come back"""
         f = self.self_calls.get(e.name)
@@ -1129,10 +1144,10 @@ class FnTranslatorX(rs.FnTranslator):
         outs = [self.lookup(w, e).lean for w in f.get("writes", [])]
         rt = self.ty_of_text(f["ret"]) if f.get("ret") else TUnit()
         if isinstance(rt, TUnit):
-            code.bind(tuple_pat(outs), ("call", f["lean"] + self.abs_args() + "".join(" " + p for p in parts)))
+            code.bind(tuple_pat(outs), ("call", f["lean"] + self.callee_abs(f) + "".join(" " + p for p in parts)))
             return "()", rt
         t = self.tmp()
-        code.bind(tuple_pat(outs + [t]), ("call", f["lean"] + self.abs_args() + "".join(" " + p for p in parts)))
+        code.bind(tuple_pat(outs + [t]), ("call", f["lean"] + self.callee_abs(f) + "".join(" " + p for p in parts)))
         return t, rt
 
     # ---------------------------------------------------------------- match
@@ -1313,7 +1328,32 @@ class FnTranslatorX(rs.FnTranslator):
             self.err("assignment to a field of a struct-valued `self` field", s)
         return rs.FnTranslator.assign(self, s, code)
 
+    def abs_method_key(self, e):
+        """`self.f.<method>(closure)` where the spec reads some (method, closure text) pairs on the field `self.f` as an
+        abstract function (`abs_methods={"self.f": {lean, ty, alts=[(method, closure), …]}}`)"""
+        if e.kind == "mcall" and strip(e.recv).kind == "field" and self.self_chain(strip(e.recv)) is not None:
+            key = "self." + ".".join(self.self_chain(strip(e.recv)))
+            f = getattr(self, "abs_methods", {}).get(key)
+            if f is not None and e.name in [m for m, _ in f["alts"]]:
+                return key
+        return None
+
     def expr_stmt(self, e, code):
+        key = self.abs_method_key(e)
+        if key is not None:
+            f = self.abs_methods[key]
+            if len(e.args) != 1 or e.args[0].kind != "closure":
+                self.err("`%s.%s` without its closure" % (key, e.name), e)
+            got = "".join(self.body_text[e.args[0].pos - self.body_pos:].split())
+            okc = [c for m, c in f["alts"] if m == e.name and got.startswith("".join(c.split()) + ")")]
+            if not okc:
+                self.err("`%s.%s(…)`: the closure is none of %s (method and closure are the contract of `%s`)"
+                         % (key, e.name, " / ".join("`%s`" % c for m, c in f["alts"] if m == e.name), f["lean"]), e.args[0])
+            v = self.container(e.recv, e)
+            if v is None or v.ty != self.ty_of_text(f["ty"]):
+                self.err("`%s` has another type than the spec says" % key, e)
+            code.let(v.lean, "%s %s" % (f["lean"], atom(v.lean)))
+            return
         if e.kind == "call" and "::".join(e.path) in self.mut_calls:
             f = self.mut_calls["::".join(e.path)]
             if len(e.args) != len(f["args"]):
@@ -1323,7 +1363,7 @@ class FnTranslatorX(rs.FnTranslator):
                 if at.startswith("closure:"):
                     # the closure is part of the contract of the abstract function: its text is pinned
                     got = " ".join(self.body_text[a.pos - self.body_pos:].split())
-                    if a.kind != "closure" or not got.replace(" ", "").startswith(at[len("closure:"):].replace(" ", "")):
+                    if a.kind != "closure" or not got.replace(" ", "").startswith(at[len("closure:"):].replace(" ", "") + ")"):
                         self.err("the closure passed to `%s` is no longer `%s`" % ("::".join(e.path), at[len("closure:"):]), a)
                     continue
                 want = self.ty_of_text(at)
@@ -1689,6 +1729,10 @@ class FnTranslatorX(rs.FnTranslator):
 
     # ---------------------------------------------------------------- the function body
     def seq(self, stmts, tail_node, code, where):
+        if tail_node is not None and tail_node.kind in ("if", "match") and isinstance(self.ret, TUnit):
+            # a unit function whose body ends in `if … { … }` without `;`: a statement, not a value
+            stmts = list(stmts) + [N("ifs" if tail_node.kind == "if" else "matchs", tail_node.pos, e=tail_node)]
+            tail_node = None
         for idx, st in enumerate(stmts):
             if st.kind == "for" and "return" in jumps(st.body):
                 r = self.cf_for(st, code, jumps(st.body), fn_level=True)
